@@ -44,6 +44,11 @@ def gen_literal(tape, keys, allow_keylike):
         return None
     if allow_keylike and keys:
         return keys[tape.draw(len(keys), "keylike")]
+    # legacy form: a string that is a key name in OTHER graphs but names nothing in this one (node j
+    # of this graph has a tuple key, so "k<j>" is free here for good) -- a plain literal
+    free = [f"k{j}" for j, k in enumerate(keys) if k != f"k{j}"]
+    if free:
+        return free[tape.draw(len(free), "freename")]
     return tape.draw(20, "litint")
 
 
